@@ -170,10 +170,21 @@ def run(ctx):
                 S.data[:] = [rng.choice([0.5, -0.25, 2.0, -3.0, 1.0]) for _ in range(S.nnz)]
             if diag and k % 3 == 0:
                 S.data[rows_of == S.indices] = 0.0      # a diagonal that is STORED but zero (e.g. after S.setdiag(0))
+            if k % 4 == 1 and S.nnz:
+                # some off-diagonal couplings STORED with the value zero (a strength measure with theta = 0 keeps stored zeros of A):
+                # the strength graph is the stored pattern
+                offd = np.flatnonzero(rows_of != S.indices)
+                for q_ in offd[::2]:
+                    S.data[q_] = 0.0
             cs = dict(base, diag=diag, values='antisymmetric' if signed else 'random')
             ctx.mark(cs)
             oracle(ctx, 'RS', n, arcs, split.RS(S), cs, indep_dom=sym)
             oracle(ctx, 'RS/second_pass', n, arcs, split.RS(S, second_pass=True), cs, cover=True)
+            # (any true value asks for the second pass)
+            for tv in (np.True_, 1):
+                if split.RS(S, second_pass=tv).tolist() != split.RS(S, second_pass=True).tolist():
+                    ctx.fail('RS/second_pass/truthy-value-ignored', 'second_pass=%r gives another splitting than second_pass=True' % (tv,), cs)
+                    break
             for nm, f, kw in (('PMIS', lambda: split.PMIS(S), dict(indep_dom=True)),
                               ('PMISc/JP', lambda: split.PMISc(S, method='JP'), dict(indep_dom=True)),
                               ('PMISc/MIS', lambda: split.PMISc(S, method='MIS'), dict(indep_dom=True)),
@@ -244,11 +255,12 @@ def structured(ctx):
             oracle(ctx, nm, n, arcs, a, dict(case, arcs='path + fan-in (see DESIGN 8.6)'), indep_dom=True)
     # 2. CLJP / CLJPc on many random NONSYMMETRIC patterns (5..12 vertices) and a small corpus: every fine point that depends on
     #    some node depends on a coarse point
-    corpus = [(5, [(0, 2), (1, 4), (3, 0), (4, 0), (4, 2), (4, 3)])]
+    corpus = [(5, [(0, 2), (1, 4), (3, 0), (4, 0), (4, 2), (4, 3)]),
+              (6, [(0, 5), (1, 4), (1, 5), (2, 4), (3, 0), (3, 5), (4, 5), (5, 2)])]
     rand = []
     for _ in range(1500 if not ctx.thorough else 20000):
-        n = rng.choice([5, 6, 7, 8, 10, 12])
-        dens = rng.choice([0.15, 0.25, 0.4])
+        n = rng.choice([5, 6, 7, 8, 10, 12, 16, 24, 32])
+        dens = rng.choice([0.15, 0.25, 0.4]) if n <= 12 else rng.choice([0.06, 0.1, 0.15])
         rand.append((n, [(i, j) for i in range(n) for j in range(n) if i != j and rng.random() < dens]))
     for n, arcs in corpus + rand:
         Sp, Sj, Tp, Tj = csr_pair(n, arcs)
